@@ -569,11 +569,39 @@ func (se *vmStackEval) calleeEffect(f *types.Func, call *ast.CallExpr) (vmLin, b
 	if callee == nil || callee.pkg != se.r.dispatch.pkg {
 		return vmLin{}, false
 	}
+	// a symbolic term named after a parameter of the callee (the trip count of `for i := 0; i < n; i++`)
+	// is the caller's argument
+	atCall := func(l vmLin) vmLin {
+		if call == nil || len(l.t) == 0 {
+			return l
+		}
+		names := map[string]string{}
+		i := 0
+		for _, fl := range callee.fd.Type.Params.List {
+			for _, n := range fl.Names {
+				if i < len(call.Args) && !call.Ellipsis.IsValid() {
+					names[n.Name] = exprStr(vmStripConv(se.fn.info, call.Args[i]))
+				}
+				i++
+			}
+			if len(fl.Names) == 0 {
+				i++
+			}
+		}
+		out := vmLin{c: l.c, t: map[string]int{}}
+		for k, v := range l.t {
+			if a, ok := names[k]; ok {
+				k = a
+			}
+			out.t[k] += v
+		}
+		return out
+	}
 	if l, ok := se.memo[f]; ok {
 		if l == nil {
 			return vmLin{}, false
 		}
-		return *l, true
+		return atCall(*l), true
 	}
 	if se.busy[f] {
 		return vmLin{}, false
@@ -621,11 +649,16 @@ func (se *vmStackEval) calleeEffect(f *types.Func, call *ast.CallExpr) (vmLin, b
 		se.memo[f] = &z
 		return z, true
 	}
-	// summarise the callee with the same path analysis
+	// summarise the callee with the same path analysis (its loops summarised symbolically first)
 	se.busy[f] = true
 	defer delete(se.busy, f)
 	sub := &vmStackEval{r: se.r, fn: callee, memo: se.memo, busy: se.busy}
-	res := vmWalk(vmWalkOpts{fn: callee})
+	sp := &vmStackPrep{se: sub, repl: map[ast.Stmt]any{}, problem: map[ast.Stmt]string{}}
+	sp.prepare(callee, callee.fd.Body)
+	for loop, why := range sp.problem {
+		sub.problem = append(sub.problem, fmt.Sprintf("loop at %s: %s", se.r.c.Pos(loop.Pos()), why))
+	}
+	res := vmWalk(vmWalkOpts{fn: callee, replace: sp.replace})
 	var effs []string
 	var one vmLin
 	for i := range res.paths {
@@ -647,7 +680,7 @@ func (se *vmStackEval) calleeEffect(f *types.Func, call *ast.CallExpr) (vmLin, b
 		return vmLin{}, false
 	}
 	se.memo[f] = &one
-	return one, true
+	return atCall(one), true
 }
 
 func vmRootOf(e ast.Expr) ast.Expr {
